@@ -16,7 +16,7 @@ Three ties, all on every run:
       (`c20_history`, CC/Model/Effects.lean) and compared step by step.
 """
 from __future__ import annotations
-import copy, dataclasses, json, math, sys, types
+import copy, dataclasses, json, math, os, sys, types
 import numpy as np
 import core, gen_net
 from props import c17
@@ -26,7 +26,7 @@ LEAN_MODULE = 'CC.Properties.C20'
 LEVEL = 'proof'
 THEOREMS = [
     'CC.C20_frame_rows', 'CC.C20_frame', 'CC.C20_frame_exceptions_exact', 'CC.C20_frame_all', 'CC.C20_defaults',
-    'CC.C20_no_global_writes', 'CC.C20_no_unknown_callee',
+    'CC.C20_no_global_writes', 'CC.C20_no_unknown_callee', 'CC.C20_no_unknown_decorator',
     'CC.C20_history', 'CC.C20_history_frame', 'CC.C20_pure_history', 'CC.C20_loaders_sound', 'CC.C20_loader_histories',
 ]
 OPEN_STATEMENTS = []
@@ -596,6 +596,65 @@ def loader_history(ctx, out, rng, n_ops):
         out.traces_validated += 1
     out.count('loader_histories')
 
+# --------------------------------------------------------------------------- file histories (save / load of shared paths)
+
+def file_history(ctx, out, rng, n_ops, tmpdir, hno):
+    """a history over three shared file paths: documents are written, loaded (str or pathlib.Path), results edited, paths
+    rewritten; every load is compared with the isolated string-level evaluation deserialize(serialize(document)) of what the
+    path holds at that moment"""
+    from pathlib import Path
+    from CircuitCalculator import dump_load as DL
+    slots = [dict(path=os.path.join(tmpdir, f'h{hno}_{i}.{fmt}'), fmt=fmt, doc=None) for i, fmt in enumerate(['json', 'yaml', 'json'])]
+    results = []
+    trace = []
+    for step in range(n_ops):
+        sl = rng.choice(slots)
+        act = rng.choice(['dump', 'load', 'load', 'load_path', 'edit']) if sl['doc'] is not None else 'dump'
+        out.evaluations += 1
+        out.count('file_op:' + act)
+        trace.append((act, os.path.basename(sl['path'])))
+        if act == 'dump':
+            t = c17.gen_tree(rng, cx=rng.random() < 0.5, cxlike=False, scalars_in_lists=rng.random() < 0.5)
+            t['serial'] = step
+            before = snap(t)
+            r = outcome(lambda: DL.dump(sl['path'] if rng.random() < 0.7 else Path(sl['path']), t))
+            if snap(t) != before:
+                out.spec_fail(dict(op='dump', symptom='argument_mutated', param='data', kind='tree'), 'dump changed the document it was given',
+                              dict(history=f'file{hno}', step=step, trace=trace[-6:]))
+            if r[0] == 'ok':
+                sl['doc'] = copy.deepcopy(t)
+        elif act in ('load', 'load_path'):
+            path = sl['path'] if act == 'load' else Path(sl['path'])
+            got = outcome(lambda: DL.load(path))
+            iso = outcome(lambda: DL.deserialize(DL.serialize(copy.deepcopy(sl['doc']), sl['fmt']), sl['fmt']))
+            out.traces_validated += 1
+            if snap(got) != snap(iso):
+                out.spec_fail(dict(op='load', symptom='history_dependent', tainted_by='earlier use of the same path', taint_class='file'),
+                              'load(file) inside a history differs from the isolated reading of what the file holds',
+                              dict(history=f'file{hno}', step=step, trace=trace[-8:], document=sl['doc']),
+                              impl=dict(in_history=str(got)[:300], isolated=str(iso)[:300]))
+                return
+            if got[0] == 'ok':
+                if any(got[1] is r for r in results) and isinstance(got[1], (dict, list)):
+                    out.spec_fail(dict(op='load', symptom='same_object', taint_class='file'), 'two loads returned the very same mutable object',
+                                  dict(history=f'file{hno}', step=step, trace=trace[-8:]))
+                    return
+                results.append(got[1])
+            out.nontrivial(('file_history', act, sl['fmt']))
+        elif act == 'edit' and results:
+            c17.scramble(rng.choice(results))
+
+def run_file_histories(ctx, out, n_hist, n_ops):
+    import shutil, tempfile
+    tmpdir = tempfile.mkdtemp(prefix='c20_files_')
+    try:
+        for hno in range(n_hist):
+            if ctx.time_left() < 8: break
+            file_history(ctx, out, ctx.rng('file_history', hno), n_ops, tmpdir, hno)
+        c17.run_file_streams(ctx, out, 1 if ctx.quick else 6, prop='C20')
+    finally:
+        shutil.rmtree(tmpdir, ignore_errors=True)
+
 # --------------------------------------------------------------------------- run
 
 def load_effects(ctx, out):
@@ -649,6 +708,7 @@ def run(ctx, out):
         for hno in range(40 if ctx.quick else 400):
             if ctx.time_left() < 5: break
             loader_history(ctx, out, ctx.rng('loader_history', hno), 12 if ctx.quick else 30)
+    run_file_histories(ctx, out, 30 if ctx.quick else 300, 14 if ctx.quick else 40)
     out.sample(dict(pool='net0..2, circ0..1, keep0..1, cval/lval, desc0..2, z0..1, tree0..1, cdesc0..1, wlist, warr, idsA/B',
                     operations=sorted(ops)))
 
@@ -662,7 +722,9 @@ def replay(ctx, out, rp):
     ops = build_ops()
     defaults, tables = collect_defaults()
     n_ops = (25 if rp.get('tier', 'quick') == 'quick' else 100)
-    if hno == 'corpus':
+    if isinstance(hno, str) and hno.startswith('file'):
+        run_file_histories(ctx, out, 30, 14)
+    elif hno == 'corpus':
         run_corpus(ctx, out, ops, effects, defaults, tables)
     else:
         run_history(ctx, out, ops, effects, defaults, tables, ctx.rng('history', hno), n_ops, hno)
